@@ -56,13 +56,15 @@ CHECKS = {
    "refinement proof by induction over histories + exhaustive small-scope differential testing"),
  "C19": ("proof", "5.19", "Theorems: extracted names pass every filter (no keyword, no std::/yorel::, no template name), every fundamental token is in the keyword table re-extracted from the source, the name set is a set. Correspondence: text of the forward declarations for random name sets and grammar-generated type descriptions, character for character; the output is parsed for balance and compared with the requested set. PARTIAL: the writer's balance theorem is not yet closed.",
    "proof of the extraction filters + text differential testing"),
+ "C11": ("proof", "5.11", "PARTIAL by nature. Theorems on the thunk's selection logic: parameter i is computed from argument i only, arity preserved, dynamic_cast chosen exactly when a virtual base makes static_cast ill formed, rvalues and references never copied. The decider is the generated-program check: per inheritance shape (single, non-zero offset, virtual base, several levels, virtual + levels) a program instantiates every virtual parameter kind at two positions and every non-virtual category, and compares inside the definitions the address as the definition's class, the most-derived address, shared ownership and copy/move counters with the caller's. One open known finding (by-value parameters are moved more than once).",
+   "proof of the selection logic + generated-program translation validation"),
+ "C16": ("proof", "5.16", "PARTIAL by nature. Theorems: for every schedule in which other threads only operate on other policies every call returns its sequential result (C16_any_schedule, per_thread; uses the frame theorem of C14); accesses that are reads of shared state or touch thread-owned locations never conflict (no_conflict). Tie to the source, re-checked by the kernel on every run: the write-effect table of the instantiated call path extracted from clang's AST contains only writes to locals, to the object under construction, and map operator[] (callpath_effects_allowed). Support: TSan harness, 9-33 threads x 4 policies x every route with a concurrent update of a fifth policy; TSan reports and per-thread results.",
+   "schedule-independence proof + AST effect table obligation + TSan"),
+ "C20": ("proof", "5.20", "Theorems (complete on the model): product membership and length, aggregate/flatten identity for every size and threshold, leaves bounded by the threshold (termination of the template recursion), registered = product filtered by defined (C20_registered, C20_not_defined). Tie: generated programs (sizes 1..7 per list and products on both sides of the 512 split, random not_defined subsets) print the compile-time product, the definitions found in the method's catalog and the result of dispatching through every combination; the model predicts all three. PARTIAL: the model of mp11 is hand-written.",
+   "proof on the template model + generated-program translation validation"),
 }
 
-NOT_YET = {
- "C11": "argument passing through thunks lives in the C++ compiler's cast and value-category semantics; the H-prog generated-program check is not built yet in this round",
- "C16": "the thread-schedule model and the TSan harness are not built yet in this round",
- "C20": "the model of product/aggregate is proved (Props/C20.lean) but the generated-program correspondence that ties it to templates.hpp is not built yet",
-}
+NOT_YET = {}
 
 def main():
     commits = subprocess.run(["git", "-C", "/repo", "log", "--format=%h %s"], capture_output=True, text=True).stdout.splitlines()
